@@ -89,6 +89,70 @@ func (w *World) nilDerefSites() (sites []nilDerefSite, nCalls int, summaries []s
 			summaries = append(summaries, fnShort(fn))
 		}
 	}
+	// ... and, transitively, functions that hand on what such a function returned without
+	// having tested it (`return parse(x)`, `v := parse(x); log(...); return v`)
+	mayOf := func(callee *ssa.Function) (int, bool) {
+		if idx, ok := may[callee]; ok {
+			return idx, true
+		}
+		if callee.Origin() != nil {
+			idx, ok := may[callee.Origin()]
+			return idx, ok
+		}
+		return 0, false
+	}
+	for changed := true; changed; {
+		changed = false
+		for _, fn := range w.SSAFuncs {
+			if _, done := may[fn]; done || fn.Signature.Results().Len() == 0 {
+				continue
+			}
+			ei := errResultIndex(fn)
+			for _, b := range fn.Blocks {
+				if len(b.Instrs) == 0 {
+					continue
+				}
+				ret, ok := b.Instrs[len(b.Instrs)-1].(*ssa.Return)
+				if !ok {
+					continue
+				}
+				// with an error result that is not known to be nil at this return, a nil value is the
+				// failing answer (callers test the error) - the same leniency as for literal nils
+				if ei >= 0 && !isNilConst(ret.Results[ei]) && !knownNil(ret.Results[ei], b) {
+					continue
+				}
+				for i, rv := range ret.Results {
+					if i == ei {
+						continue
+					}
+					if _, isPtr := rv.Type().Underlying().(*types.Pointer); !isPtr {
+						continue
+					}
+					for _, lv := range phiLeaves(unspill(rv, b)) {
+						var call *ssa.Call
+						idx := 0
+						switch x := lv.(type) {
+						case *ssa.Call:
+							call = x
+						case *ssa.Extract:
+							call, _ = x.Tuple.(*ssa.Call)
+							idx = x.Index
+						}
+						if call == nil || call.Call.StaticCallee() == nil {
+							continue
+						}
+						if mi, ok := mayOf(call.Call.StaticCallee()); ok && mi == idx && !knownNonNil(lv, b) {
+							if _, done := may[fn]; !done {
+								may[fn] = i
+								summaries = append(summaries, fnShort(fn))
+								changed = true
+							}
+						}
+					}
+				}
+			}
+		}
+	}
 	sort.Strings(summaries)
 	summaries = dedupSortedPlain(summaries)
 	for _, fn := range w.SSAFuncs {
